@@ -26,6 +26,8 @@ LEVEL_NOTE = ("Trusted: vf.refs.addrmodel (self-tested), twisted.internet.task.C
 RULE = ("a case = an epoch, 1-4 names, an optional initial address-mappings/all listing (TorState route) and 2-16 steps, "
         "each an ADDRMAP line (local-time / EXPIRES= / CACHED= / NEVER / <error> forms, expiry offset -1 day..+30 days) or a "
         "clock advance (seconds to days, to just before / just after the next expiry, whole-second or fractional clock). "
+        "Every listener double also probes the map from INSIDE its callbacks; in half of the cases it additionally acts "
+        "there according to a per-name plan: re-resolve the name through AddrMap.update() or raise an exception. "
         "Distinct = hash of the whole case. Non-trivial = at least one name was live at a judged step.")
 ASSUMPTIONS = [
     "process TZ is UTC; Tor's local-time Expiry equals the EXPIRES= UTC time except in histories where Tor is "
@@ -34,6 +36,13 @@ ASSUMPTIONS = [
     "names are host names; addresses are IPv4 literals, bracketed IPv6 literals or host names",
     "the exact instant of an expiry is never probed (boundary cases are counted, not judged)",
     "lookup by address while the mapping is live is not demanded by the statement and not judged",
+    "inside addrmap_expired(name) neither the name nor any address it had may resolve to that name any more; inside "
+    "addrmap_added(addr) the name must resolve to the announced address (nothing is demanded when the model says the "
+    "name is live/dead the other way round at that instant - the per-step listener accounting reports that)",
+    "a listener that raises from addrmap_expired is alone on the map (other listeners' fate is not stated); its exception "
+    "may surface from clock.advance()/AddrMap.update() or be logged - afterwards only the map content and the event "
+    "counts are judged: the expired mapping must not be findable, a re-resolved name must resolve to the new mapping, "
+    "cause exactly one further 'added' and expire at its own time",
     "an <error> event for a live name may or may not be announced as 'expired' (either accepted); "
     "a new name whose mapping is already expired on arrival may be announced added+expired or not at all",
 ]
@@ -51,10 +60,12 @@ ANCHORS = [
 FLOORS = {
     "quick": {"evaluations": 2500, "lookups_compared": 35000, "listener_calls_seen": 4000,
               "expiries_in_model": 3000, "state_route_events": 300, "bootstrap_mappings": 100,
+              "in_callback_probes": 15000, "reresolves_in_callback": 600, "listener_raises": 300,
               "reach:txtorcon.addrmap:Addr.update": 5000, "reach:txtorcon.addrmap:Addr._expire": 1500,
               "reach:txtorcon.torstate:TorState._addr_map": 300},
     "thorough": {"evaluations": 80000, "lookups_compared": 1200000, "listener_calls_seen": 250000,
                  "expiries_in_model": 100000, "state_route_events": 15000, "bootstrap_mappings": 4000,
+                 "in_callback_probes": 500000, "reresolves_in_callback": 20000, "listener_raises": 10000,
                  "reach:txtorcon.addrmap:Addr.update": 250000, "reach:txtorcon.addrmap:Addr._expire": 100000,
                  "reach:txtorcon.torstate:TorState._addr_map": 15000},
 }
@@ -181,19 +192,85 @@ def gen_advance(rnd, model, theme):
     return target - now
 
 
+class ActorPlan(object):
+    """what the listener double does INSIDE successive addrmap_expired callbacks, per name:
+    ["none"] | ["raise"] | ["re", {"addr":..., "off": seconds from the callback instant, "form":...}]
+    (re = feed a fresh mapping for the same name through AddrMap.update(), i.e. re-resolve on expiry)"""
+
+    def __init__(self, spec):
+        self.plan = (spec or {}).get("plan", {})
+        self.used = {}
+
+    def next(self, name):
+        i = self.used.get(name, 0)
+        self.used[name] = i + 1
+        acts = self.plan.get(name) or []
+        return acts[i] if i < len(acts) else ["none"]
+
+
+def re_event(name, act, now):
+    ev = {"name": name, "addr": act["addr"], "exp": int(now) + act["off"], "form": act["form"],
+          "cached": act.get("cached", "NO")}
+    if act.get("tzoff"):
+        ev["tzoff"] = act["tzoff"]
+    return ev
+
+
+def gen_actor(rnd, names, addrs, theme):
+    plan = {}
+    for n in names:
+        acts = []
+        for _ in range(rnd.choice([0, 1, 1, 2, 3])):
+            r = rnd.random()
+            if r < 0.3:
+                acts.append(["none"])
+            elif r < 0.75:
+                offs = [1, 2, 5, 60, 61, 3600, rnd.randint(1, 7200)]
+                if theme["days"]:
+                    offs += [DAY, DAY + 1, 3 * DAY + 7]
+                a = {"addr": rnd.choice(addrs), "off": rnd.choice(offs),
+                     "form": rnd.choice(["expires", "cached"]) if theme["tzoff"] else rnd.choice(["local", "expires", "cached"]),
+                     "cached": rnd.choice(["YES", "NO"])}
+                if theme["tzoff"]:
+                    a["tzoff"] = theme["tzoff"]
+                acts.append(["re", a])
+            else:
+                acts.append(["raise"])
+        plan[n] = acts
+    return {"plan": plan}
+
+
+def sim_expired(model, plan, name):
+    """generator-side picture of what the listener double will do when `name` expires"""
+    act = plan.next(name)
+    if act[0] == "re":
+        model.event(re_event(name, act[1], model.now))
+
+
 def gen_case(rnd, route):
     theme = gen_theme(rnd)
     names = rnd.sample(NAMES, rnd.choice([1, 1, 2, 2, 3, 4]))
     addrs = rnd.sample(ADDRS, rnd.randint(2, 5))
     model = M.AddrModel()
     case = {"route": route, "epoch": rnd.choice(EPOCHS), "names": names, "boot": [], "steps": [],
-            "t0": 0}
+            "t0": 0, "actor": None}
     if route == "state":
         case["chunking"] = gen.chunking(rnd)
         theme["tzoff"] = 0          # the bootstrap listing has no EXPIRES= form
         if rnd.random() < 0.5:
             case["t0"] = rnd.choice([1, 17, 3600]) + (rnd.choice([0.25, 0.5]) if theme["fractional"] else 0)
             model.advance(case["t0"])
+    if rnd.random() < 0.5:
+        case["actor"] = gen_actor(rnd, names, addrs, theme)
+    plan = ActorPlan(case["actor"])
+
+    def fed(ev):
+        was, now_live = model.event(ev)
+        # an 'expired' callback is expected when a live name is dropped, or a new name arrives expired
+        if not now_live and (was or ev["addr"] != M.ERROR):
+            sim_expired(model, plan, ev["name"])
+
+    if route == "state":
         seen = set()
         for _ in range(rnd.choice([0, 0, 1, 1, 2, 3])):
             ev = gen_event(rnd, model, names, addrs, theme, boot=True)
@@ -201,23 +278,32 @@ def gen_case(rnd, route):
                 seen.add(ev["name"])
                 model.event(ev)
                 case["boot"].append(ev)
+        for ev in case["boot"]:
+            if model.lookup(ev["name"]) is None:
+                sim_expired(model, plan, ev["name"])
     nsteps = rnd.choice([2, 3, 4, 5, 6, 8, 10, 12, rnd.randint(2, 16)])
     for _ in range(nsteps):
         if rnd.random() < 0.58:
             ev = gen_event(rnd, model, names, addrs, theme)
             if ev is None:
                 continue
-            model.event(ev)
+            fed(ev)
             case["steps"].append(["ev", ev])
         else:
             dt = gen_advance(rnd, model, theme)
-            model.advance(dt)
+            for name in model.advance(dt):
+                sim_expired(model, plan, name)
             case["steps"].append(["adv", dt])
-    # quiescence: past every finite expiry ever announced
-    last = max([model.now] + [e for n in model.names.values() for (_, _, _, _, e) in n.history
-                              if e is not None])
-    target = off_boundary(model, float(int(last)) + DAY + 1, 1)
-    case["steps"].append(["adv", target - model.now])
+    # quiescence: past every finite expiry ever announced (re-resolving listeners announce more)
+    for _ in range(10):
+        last = max([model.now] + [e for n in model.names.values() for (_, _, _, _, e) in n.history
+                                  if e is not None])
+        target = off_boundary(model, float(int(last)) + DAY + 1, 1)
+        case["steps"].append(["adv", target - model.now])
+        for name in model.advance(target - model.now):
+            sim_expired(model, plan, name)
+        if not model.live_expiries():
+            break
     return case
 
 
@@ -251,15 +337,103 @@ class VirtualDatetimeModule(object):
         return getattr(_real_datetime, name)
 
 
+BOOM = "vf-listener-boom"
+
+
+class ListenerBoom(Exception):
+    """raised on purpose by the listener double from inside addrmap_expired"""
+
+
 class Listener(object):
+    """IAddrListener double.  Records every call; INSIDE the callbacks it also probes the map
+    (at the instant 'expired' is heard neither the name nor its addresses may resolve to that
+    name; at the instant 'added' is heard the name must resolve to the announced mapping) and,
+    when the case carries an actor plan, re-resolves the name through AddrMap.update() or raises."""
+
     def __init__(self):
         self.log = []
+        self.ctx = None
+        self.acts = []              # (name, action) performed since the harness last cleared it
+        self.tags = {}              # name -> set of tags for mechanism keys
 
     def addrmap_added(self, addr):
-        self.log.append(("added", getattr(addr, "name", None), str(getattr(addr, "ip", None))))
+        name = getattr(addr, "name", None)
+        self.log.append(("added", name, str(getattr(addr, "ip", None))))
+        c = self.ctx
+        if c is None or name not in c["model"].names:
+            return
+        want = c["model"].lookup(name)
+        if want is None:
+            return                  # arrived already expired: nothing to demand
+        c["rec"].count("in_callback_probes")
+        try:
+            got = c["am"]().find(name)
+            seen = str(getattr(got, "ip", None))
+        except KeyError:
+            seen = None
+        except Exception as e:
+            seen = "raised " + repr(e)
+        if seen != want:
+            c["V"]("not-resolvable-inside-added-callback", c["cause"],
+                   {"name": name, "lookup_gave": seen, "want": want, "now": c["model"].now}, hard=False)
 
     def addrmap_expired(self, name):
         self.log.append(("expired", name, None))
+        c = self.ctx
+        if c is None or name not in c["model"].names:
+            return
+        model = c["model"]
+        n = model.names[name]
+        if model.lookup(name) is None:
+            keys = [(name, "name")] + [(a, "latest-address" if a == n.addr else "earlier-address")
+                                       for a in n.addresses]
+            for key, kcls in keys:
+                c["rec"].count("in_callback_probes")
+                try:
+                    a = c["am"]().find(key)
+                except KeyError:
+                    continue
+                except Exception as e:
+                    c["V"]("lookup-raised", kcls, {"key": key, "exc": repr(e), "inside": "addrmap_expired"}, hard=False)
+                    continue
+                if getattr(a, "name", None) == name:
+                    c["V"]("still-found-inside-expired-callback", "%s@%s" % (kcls, c["cause"]),
+                           {"name": name, "key": key, "now": model.now,
+                            "history": [list(h) for h in n.history]}, hard=False)
+        act = c["plan"].next(name)
+        if act[0] == "re":
+            ev = re_event(name, act[1], model.now)
+            self.acts.append((name, "re"))
+            self.tags.setdefault(name, set()).add("reresolved-in-callback")
+            c["rec"].count("reresolves_in_callback")
+            model.event(ev)
+            try:
+                c["am"]().update(M.render(ev, c["epoch"]))
+            except ListenerBoom:
+                raise
+            except Exception as e:
+                c["V"]("update-raised", "reresolve-inside-expired-callback",
+                       {"name": name, "line": M.render(ev, c["epoch"]), "exc": repr(e)})
+        elif act[0] == "raise":
+            self.acts.append((name, "raise"))
+            self.tags.setdefault(name, set()).add("listener-raised")
+            c["rec"].count("listener_raises")
+            raise ListenerBoom(BOOM)
+
+
+def advance_clock(clock, dt):
+    """clock.advance that survives the listener double's own exception (a reactor would log it
+    and go on with the next delayed call)"""
+    while True:
+        try:
+            clock.advance(dt)
+            return
+        except ListenerBoom:
+            dt = 0
+
+
+def real_errors(errs):
+    return [e for e in errs if BOOM not in e[1] and e[0] != "ListenerBoom"]
 
 
 def make_listener():
@@ -303,12 +477,17 @@ def run_case(case, rec):
         return "general"
 
     link = tor = None
+    holder = {}
+    lst.ctx = {"model": model, "am": lambda: holder["am"], "epoch": epoch, "plan": ActorPlan(case.get("actor")),
+               "rec": rec, "V": V, "cause": "bootstrap"}
+    if case.get("actor"):
+        rec.count("cases_with_acting_listener")
     try:
         if case["t0"]:
             clock.advance(case["t0"])
             model.advance(case["t0"])
         if case["route"] == "addrmap":
-            am = addrmap_mod.AddrMap()
+            am = holder["am"] = addrmap_mod.AddrMap()
             am.scheduler = clock
             am.add_listener(lst)
         else:
@@ -325,11 +504,11 @@ def run_case(case, rec):
             st.addrmap.add_listener(lst)
             done = []
             st.post_bootstrap.addBoth(done.append)
-            am = st.addrmap
+            am = holder["am"] = st.addrmap
             for ev in case["boot"]:
                 model.event(ev)
             link.pump()
-            errs = logcap.take()
+            errs = real_errors(logcap.take())
             rec.count("bootstrap_mappings", len(case["boot"]))
             if not done or done[0] is not st or link.exceptions or errs:
                 V("bootstrap-failed", "+".join(sorted({model.history_class(e["name"]) for e in case["boot"]})) or "no-mappings",
@@ -337,7 +516,7 @@ def run_case(case, rec):
                    "lines": lines})
                 raise Stop()
             try:
-                clock.advance(0)
+                advance_clock(clock, 0)
             except Exception as e:
                 V("scheduler-exception", attributed(e), {"step": "bootstrap", "exc": repr(e)})
                 raise Stop()
@@ -347,8 +526,11 @@ def run_case(case, rec):
                 break
             mark = len(lst.log)
             gone = ()
+            trans = None
+            del lst.acts[:]
             if kind == "ev":
                 line = M.render(arg, epoch)
+                lst.ctx["cause"] = "error-event" if arg["addr"] == M.ERROR else "event"
                 trans = model.event(arg)
                 rec.count("events_fed")
                 rec.seen("line_forms", "%s%s%s%s" % (arg["form"], "+error" if arg["addr"] == M.ERROR else "",
@@ -361,6 +543,8 @@ def run_case(case, rec):
                 if case["route"] == "addrmap":
                     try:
                         am.update(line)
+                    except ListenerBoom:
+                        pass
                     except Exception as e:
                         V("update-raised", model.history_class(arg["name"]),
                           {"step": idx, "line": line, "exc": repr(e)})
@@ -371,7 +555,7 @@ def run_case(case, rec):
                         break
                     link.pump()
                     rec.count("state_route_events")
-                    errs = logcap.take()
+                    errs = real_errors(logcap.take())
                     if errs or link.exceptions:
                         V("update-raised", model.history_class(arg["name"]),
                           {"step": idx, "line": line, "logged": errs, "exceptions": link.exceptions})
@@ -379,16 +563,17 @@ def run_case(case, rec):
                 dt = 0
             else:
                 dt = arg
+                lst.ctx["cause"] = "clock-advance"
                 gone = model.advance(dt)
                 rec.count("clock_advances")
                 rec.count("expiries_in_model", len(gone))
             try:
-                clock.advance(dt)
+                advance_clock(clock, dt)
             except Exception as e:
                 V("scheduler-exception", attributed(e),
                   {"step": idx, "exc": repr(e), "now": model.now})
                 break
-            judge(case, model, am, lst, mark, (kind, arg), rec, V, state, names, gone)
+            judge(case, model, am, lst, mark, (kind, arg), rec, V, state, names, gone, trans)
     except Stop:
         pass
     finally:
@@ -397,7 +582,7 @@ def run_case(case, rec):
     return reported
 
 
-def judge(case, model, am, lst, mark, step, rec, V, state, names, gone=()):
+def judge(case, model, am, lst, mark, step, rec, V, state, names, gone=(), trans=None):
     if model.boundary():
         rec.count("boundary_instants_not_judged")
         state["hard"] = True            # stop: nothing after an unjudgeable instant is compared
@@ -418,6 +603,7 @@ def judge(case, model, am, lst, mark, step, rec, V, state, names, gone=()):
         rec.count("lookups_compared")
         cls = model.history_class(name)
         rec.seen("history_classes", cls)
+        cls += "".join("+" + t for t in sorted(lst.tags.get(name, ())))
         n = model.names.get(name)
         detail = {"name": name, "now": model.now, "model_expiry": n.exp if n else None, "step": step,
                   "history": [list(h) for h in n.history] if n else []}
@@ -462,12 +648,11 @@ def judge(case, model, am, lst, mark, step, rec, V, state, names, gone=()):
     expect = {}                # name -> list of acceptable [what...] sequences
     if kind == "boot":
         for ev in arg:
-            live = model.lookup(ev["name"]) is not None
+            live = ev["exp"] is None or ev["exp"] > model.now
             expect[ev["name"]] = [["added"]] if live else [[], ["added", "expired"]]
     elif kind == "ev":
-        h = model.names[arg["name"]].history[-1]
-        was, err = h[1], h[3] == M.ERROR
-        now_live = model.lookup(arg["name"]) is not None
+        err = arg["addr"] == M.ERROR
+        was, now_live = trans
         if not was and now_live:
             acc = [["added"]]
         elif not was:
@@ -480,6 +665,15 @@ def judge(case, model, am, lst, mark, step, rec, V, state, names, gone=()):
     else:
         for name in gone:
             expect[name] = [["expired"]]
+    # a listener that re-resolved the name from inside 'expired' must hear the new mapping added
+    for (nm, what) in lst.acts:
+        if what == "re":
+            acc = []
+            for seq in expect.get(nm, [[]]):
+                if "expired" in seq:
+                    i = seq.index("expired")
+                    acc.append(seq[:i + 1] + ["added"] + seq[i + 1:])
+            expect[nm] = acc or [["expired", "added"]]
     for nm in set(per) | set(expect):
         if nm in diverged:
             continue
@@ -489,7 +683,8 @@ def judge(case, model, am, lst, mark, step, rec, V, state, names, gone=()):
             continue        # (what the announced Addr holds is not part of the statement: not judged)
         cls = model.history_class(nm) if nm in model.names else "unknown-name"
         if kind == "ev" and nm == arg["name"] and arg["addr"] == M.ERROR:
-            cls = "error-on-live-name" if model.names[nm].history[-1][1] else "error-on-new-name"
+            cls = "error-on-live-name" if trans[0] else "error-on-new-name"
+        cls += "".join("+" + t for t in sorted(lst.tags.get(nm, ())))
         detail = {"name": nm, "step": step, "heard": per.get(nm, []), "acceptable": acc, "now": model.now}
         want = max(acc, key=len)
         said = False
@@ -543,6 +738,7 @@ def replay(case, rec):
     _start_capture()
     case.setdefault("t0", 0)
     case.setdefault("boot", [])
+    case.setdefault("actor", None)
     case["steps"] = [[k, a] for (k, a) in case["steps"]]
     run_case(case, rec)
 
